@@ -181,6 +181,115 @@ fn first_bad(out: &str, d_from: usize) -> Option<(usize, char)> {
     out.chars().enumerate().find(|(i, c)| matches!(c, 'p' | 'q') || (*c == 'd' && *i >= d_from))
 }
 
+
+// ---- directed mutants: alterations whose check sums are FORCED to special values -------------------
+fn crc16_flac(data: &[u8]) -> u16 {
+    let mut r: u16 = 0;
+    for b in data {
+        r ^= u16::from(*b) << 8;
+        for _ in 0..8 {
+            r = if r & 0x8000 != 0 { (r << 1) ^ 0x8005 } else { r << 1 };
+        }
+    }
+    r
+}
+
+fn crc8_flac(data: &[u8]) -> u8 {
+    let mut r: u8 = 0;
+    for b in data {
+        r ^= *b;
+        for _ in 0..8 {
+            r = if r & 0x80 != 0 { (r << 1) ^ 0x07 } else { r << 1 };
+        }
+    }
+    r
+}
+
+/// Rewrites the two bytes `data[n-2..n]` so that `crc16(data[..n]) == target` (always solvable: the CRC
+/// of a two-byte suffix is a bijection).
+fn force_crc16(data: &mut [u8], n: usize, target: u16) {
+    for v in 0..=u16::MAX {
+        // incremental: CRC of the prefix is fixed; only the last two bytes vary
+        data[n - 2] = (v >> 8) as u8;
+        data[n - 1] = v as u8;
+        if crc16_tail(data, n) == target {
+            return;
+        }
+    }
+}
+
+fn crc16_tail(data: &[u8], n: usize) -> u16 {
+    // CRC over data[..n], with the prefix register cached per (pointer, n) being overkill here: the
+    // frames of the base streams are a few hundred bytes, and this is called for a handful of mutants
+    thread_local!(static CACHE: std::cell::RefCell<(usize, u64, u16)> = const { std::cell::RefCell::new((0, 0, 0)) });
+    let key = data[..n - 2].iter().fold(0xcbf29ce484222325u64, |h, b| (h ^ u64::from(*b)).wrapping_mul(0x100000001b3));
+    let pre = CACHE.with(|c| {
+        let mut c = c.borrow_mut();
+        if c.0 != n || c.1 != key {
+            *c = (n, key, crc16_flac(&data[..n - 2]));
+        }
+        c.2
+    });
+    let mut r = pre;
+    for b in &data[n - 2..n] {
+        r ^= u16::from(*b) << 8;
+        for _ in 0..8 {
+            r = if r & 0x8000 != 0 { (r << 1) ^ 0x8005 } else { r << 1 };
+        }
+    }
+    r
+}
+
+/// Directed mutants of one base stream (explicit byte strings): in each of the first frames one body byte
+/// is altered and the last two body bytes are then rewritten so that the CRC-16 COMPUTED over the altered
+/// frame is 0x0000 / 0xFFFF (a value different from the untouched footer); and one header byte is altered with the last
+/// header byte rewritten so that the computed CRC-8 is 0x00 / 0xFF. The footer / CRC-8 byte themselves are
+/// left as they were (so a correct parser rejects them all).
+fn forced_mutants(b: &Base) -> Vec<Vec<u8>> {
+    let mut out = vec![];
+    let bytes = b.bytes.clone();
+    let Ok((_, stream)) = parser::stream::<NomErr>(&bytes) else { return out };
+    let mut start = 42usize;
+    for i in 0..stream.frame_count().min(3) {
+        let f = stream.frame(i).unwrap();
+        let flen = f.count_bits() / 8;
+        let hlen = f.header().count_bits() / 8;
+        let end = start + flen;
+        if end > bytes.len() || flen < hlen + 6 {
+            break;
+        }
+        let footer = (u16::from(bytes[end - 2]) << 8) | u16::from(bytes[end - 1]);
+        for (k, target) in [0x0000u16, 0xFFFF].into_iter().enumerate() {
+            if target == footer {
+                continue; // would be a genuine CRC collision, which no 16-bit check sum can exclude
+            }
+            let mut m = bytes.clone();
+            let pos = start + hlen + 1 + (k * 7) % (flen - hlen - 5);
+            m[pos] ^= 0x5A;
+            // the frame occupies m[start..end]; the CRC-16 covers m[start..end-2]
+            let frame = &mut m[start..end - 2];
+            let n = frame.len();
+            force_crc16(frame, n, target);
+            out.push(m);
+        }
+        for target in [0x00u8, 0xFF] {
+            let mut m = bytes.clone();
+            // header = m[start..start+hlen], its last byte is the CRC-8 over the bytes before it
+            m[start + 2] ^= 0x10; // block-size nibble
+            let fix = start + hlen - 2;
+            for v in 0..=255u8 {
+                m[fix] = v;
+                if crc8_flac(&m[start..start + hlen - 1]) == target {
+                    break;
+                }
+            }
+            out.push(m);
+        }
+        start = end;
+    }
+    out
+}
+
 pub fn generate(seed: u64, nbases: usize, burst_stride: usize, nrandom: usize, out: &mut dyn FnMut(String)) {
     let mut rng = Rng::new(seed ^ 0x9a25e7);
     let bs = bases(&mut rng, nbases);
@@ -258,6 +367,50 @@ pub fn generate(seed: u64, nbases: usize, burst_stride: usize, nrandom: usize, o
             ),
         };
         out(format!("{head} stride={burst_stride} flips={flips} bursts={bursts} truncs={truncs} o_c15={o15} o_c16={o16}"));
+    }
+    // (3b) directed mutants (explicit byte strings): forced check sums
+    for b in bs.iter().take(8) {
+        let info = (b.pcm.rate, b.pcm.channels, b.pcm.bps);
+        let ms = forced_mutants(b);
+        if ms.is_empty() {
+            continue;
+        }
+        let outs: String = ms.iter().map(|m| outcome(m, &b.pcm.data, info)).collect();
+        add(&outs, &mut tot);
+        let o16 = match first_bad(&outs, 0) {
+            None => "ok".to_string(),
+            Some((i, c)) => format!("fail:{}_forced_crc_{}", match c { 'p' => "parser_panic", 'q' => "decoder_panic_on_accepted_mutant", _ => "altered_stream_accepted_with_different_audio" }, i),
+        };
+        out(format!(
+            "parser id=x{} prof={} cls=forced|b{}c{}|{} ch={} bps={} rate={} pcm={} xonly=1 xm={} impl_xm={outs} xcuts=- impl_xcuts=- base=- o_c15=ok o_c16={o16}",
+            b.id, if cfg!(debug_assertions) { "debug" } else { "release" }, b.pcm.bps, b.pcm.channels, b.kinds, b.pcm.channels, b.pcm.bps, b.pcm.rate, ints(&b.pcm.data),
+            ms.iter().map(|m| hex(m)).collect::<Vec<_>>().join("|")
+        ));
+    }
+    // (3c) a stream of more than 128 frames (multi-byte coded frame numbers): truncation at every byte of the
+    // last three frames and at every 16th byte elsewhere
+    {
+        let mut cfg = Cfg::default();
+        cfg.block_size = 32;
+        let pcm = gen::pcm(&mut rng, "sine_small", 1, 8, 8000, 131 * 32 - 5);
+        if let Ok(stream) = encode(&cfg, &pcm, "st", "mem") {
+            let bytes = stream_bytes(&stream);
+            let nf = stream.frame_count();
+            let tail: usize = (nf.saturating_sub(3)..nf).map(|i| stream.frame(i).unwrap().count_bits() / 8).sum();
+            let cuts: Vec<usize> = (0..bytes.len()).filter(|n| *n + tail >= bytes.len() || n % 16 == 0).collect();
+            let info = (pcm.rate, pcm.channels, pcm.bps);
+            let outs: String = cuts.iter().map(|n| outcome(&bytes[..*n], &pcm.data, info)).collect();
+            add(&outs, &mut tot);
+            let o16 = match first_bad(&outs, usize::MAX) {
+                None => "ok".to_string(),
+                Some((i, c)) => format!("fail:{}_trunc_{}", if c == 'p' { "parser_panic" } else { "decoder_panic_on_accepted_mutant" }, cuts[i]),
+            };
+            out(format!(
+                "parser id=xlong prof={} cls=manyframes|b8c1|{} ch=1 bps=8 rate=8000 pcm={} xonly=1 xm=- impl_xm=- xcuts={} impl_xcuts={outs} base={} o_c15=ok o_c16={o16}",
+                if cfg!(debug_assertions) { "debug" } else { "release" }, nf, ints(&pcm.data),
+                cuts.iter().map(|n| n.to_string()).collect::<Vec<_>>().join(","), hex(&bytes)
+            ));
+        }
     }
     // (4) random byte strings and random splices of valid material
     for i in 0..nrandom {
